@@ -93,6 +93,10 @@ class SoftmaxPlugin(PrimitiveLeafPlugin):
         prim = SoftmaxPlugin._PRIM
 
         def patched_softmax(x: ArrayLike, axis: int = -1) -> ArrayLike:
+            if isinstance(axis, (tuple, list)) or axis is None:
+                raise NotImplementedError(
+                    "nnx.softmax over several axes (or axis=None) is not supported for ONNX export"
+                )
             return cast(ArrayLike, prim.bind(x, axis=axis))
 
         return patched_softmax
